@@ -278,5 +278,6 @@ int main(int argc, char** argv) {
     }
   }
   printf("END %ld %ld\n", n_pairs, n_fail);
+  leave_buffered_stream(n_pairs);
   return 0;
 }
